@@ -4,14 +4,21 @@
    21 C11_permutation: the merged times are not the multiset of the input times / per-spike files of unequal length
    22 C11_sorted_stable: times not non-decreasing, or a probe's spikes not in their original (stable) order,
       or equal times of different probes not ordered by probe
-   23 C11_payload: some spike does not carry its own time, amplitude and ids shifted by its probe's offsets
+   23 C11_payload: some spike does not carry its own time, amplitude and ids shifted by its probe's offsets, or the
+      registered offsets are not the declarative ones (clusters: sums of largest id + 1; templates: sums of the
+      numbers of rows of the earlier probes' templates.npy)
    24 C11_disjoint: cluster / template id intervals of different probes meet
    25 C11_cluster_probes: the per-cluster probe table does not point back to the probe
    26 C11_metadata: renumbered TSV tables
    27 the TemplateModel returned by merge() differs from the written files
-   28 an input directory was modified *)
+   28 an input directory was modified
+   29 C12_spike_template_rows (cross-property link, PV.C12.Link): for merged spike i, coming from probe k with
+      original template t, row (merged spike_templates[i]) of the merged templates.npy is not template t of probe k
+      on probe k's channel block with zeros elsewhere *)
 From Coq Require Import ZArith List Bool String.
 From PV Require Export Base.Tok C11.Model C11.Spec.
+From PV Require Import C11.Proofs.
+From PV Require C12.Model C12.Spec C12.Link.
 Import ListNotations.
 Open Scope Z_scope.
 
@@ -19,8 +26,12 @@ Definition cprobe := probe tok string string.
 Definition cobsrec := obs tok string string.
 Definition cmeta := metatab string string.
 
-Inductive input := InMerge (ps : list cprobe).
-Inductive observed := ObsMerged (o : cobsrec) | ObsCrash.
+Definition ctemplates := list (list (list tok)).      (* one templates.npy: [template][sample][channel] *)
+
+(* the probes (spike side, with p_ntmpl = number of rows of the probe's templates.npy) and the content of each probe's
+   templates.npy; observed: the spike side of the merged directory and the merged templates.npy (None: absent or not 3-D) *)
+Inductive input := InMerge (ps : list cprobe) (Ts : list ctemplates).
+Inductive observed := ObsMerged (o : cobsrec) (T : option ctemplates) | ObsCrash.
 Record case := { cid : Z; cin : input; cobs : observed }.
 
 Definition flag (code : Z) (ok : bool) : list Z := if ok then [] else [code].
@@ -36,23 +47,45 @@ Definition omt_eqb (a b : option cmeta) : bool :=
 Definition probe_ok (p : cprobe) : bool :=
   let n := List.length (p_times p) in
   Nat.eqb (List.length (p_amps p)) n && Nat.eqb (List.length (p_tmpl p)) n && Nat.eqb (List.length (p_clu p)) n &&
-  forallb (fun c => 0 <=? c) (p_clu p) && forallb (fun c => 0 <=? c) (p_tmpl p) &&
+  forallb (fun c => 0 <=? c) (p_clu p) && forallb (fun c => 0 <=? c) (p_tmpl p) && (0 <=? p_ntmpl p) &&
   Nat.eqb (List.length (p_meta p)) n_meta_files &&
   forallb (fun om => match om with
                      | Some mt => forallb (fun kv => (0 <=? fst kv) && (fst kv <=? zmaxl (p_clu p))) (mt_rows mt)
                      | None => true end) (p_meta p).
 (* at least two spikes in total: TemplateModel squeezes a one-spike dataset to 0-d arrays (C04's regime) *)
-Definition in_regime (ps : list cprobe) : bool :=
-  forallb probe_ok ps && Nat.leb 2 (List.length (List.concat (map (@p_times tok string string) ps))).
+(* the templates.npy given for probe k has p_ntmpl rows, each a rectangular (samples x channels) array of the probe's width *)
+Definition tmpl_ok (pT : cprobe * ctemplates) : bool :=
+  let T := snd pT in
+  (Z.of_nat (List.length T) =? p_ntmpl (fst pT)) &&
+  forallb (fun tm => Nat.eqb (List.length tm) (C12.Model.tshape1 T) &&
+                     forallb (fun r => Nat.eqb (List.length r) (C12.Model.tshape2 T)) tm) T.
+Definition in_regime (ps : list cprobe) (Ts : list ctemplates) : bool :=
+  forallb probe_ok ps && Nat.leb 2 (List.length (List.concat (map (@p_times tok string string) ps))) &&
+  Nat.eqb (List.length Ts) (List.length ps) && forallb tmpl_ok (combine ps Ts).
+(* the well-formedness guard of the template count: every spike names one of its probe's templates.  Inputs that violate
+   it are only compared with the model (code 1): the statement does not hold for them (C11_template_count_needed) *)
+Definition tmpl_guard (ps : list cprobe) : bool :=
+  forallb (fun p => forallb (fun c => c <? p_ntmpl p) (p_tmpl p)) ps.
+
+(* clause 29, judged on the OBSERVED merged spike_templates.npy and templates.npy against the input alone:
+   M = the input spikes in (time, probe, index) order = the provenance of the merged spikes (clauses 21-23) *)
+Definition c_link (ps : list cprobe) (Ts : list ctemplates) (o : cobsrec) (T : option ctemplates) : bool :=
+  match T with
+  | Some T' => C12.Link.spike_rows_b tzero tok_eqb Ts (sorted_tagged (tagged_concat ps)) (o_tmpl o) T'
+  | None => false
+  end.
 
 Definition check (c : case) : list Z :=
-  match cin c with InMerge ps =>
-  if negb (in_regime ps) then [3] else
+  match cin c with InMerge ps Ts =>
+  if negb (in_regime ps Ts) then [3] else
   match merge ps, cobs c with
   | None, ObsCrash => []                      (* no probe / a probe without spikes: np.max raises *)
-  | None, ObsMerged _ => [1]
-  | Some _, ObsCrash => [1; 21; 22; 23; 24; 25; 26; 27]
-  | Some m, ObsMerged o =>
+  | None, ObsMerged _ _ => [1]
+  | Some _, ObsCrash =>
+      (* outside the guard the merged spike_templates may name rows that do not exist and load_model (C04's subject,
+         called at the end of merge()) may raise: no verdict *)
+      if tmpl_guard ps then [1; 21; 22; 23; 24; 25; 26; 27; 29] else []
+  | Some m, ObsMerged o T =>
       let same := zl_eq (m_times m) (o_times o) && al_eq (m_amps m) (o_amps o) && zl_eq (m_tmpl m) (o_tmpl o) &&
                   zl_eq (m_clu m) (o_clu o) && zl_eq (m_cprobes m) (o_cprobes o) &&
                   zl_eq (m_coffs m) (o_coffs o) && zl_eq (m_toffs m) (o_toffs o) &&
@@ -60,6 +93,7 @@ Definition check (c : case) : list Z :=
       let ret := match o_ret o with (t, a, tm, cl) =>
                    zl_eq t (o_times o) && al_eq a (o_amps o) && zl_eq tm (o_tmpl o) && zl_eq cl (o_clu o) end &&
                  list_eqb omt_eqb (o_ret_meta o) (o_meta o) in
+      if negb (tmpl_guard ps) then flag 1 same ++ flag 27 ret ++ flag 28 (o_unchanged o) else
       flag 1 same ++
       flag 21 (c_perm ps o) ++
       flag 22 (c_sorted tok_eqb ps o) ++
@@ -68,7 +102,8 @@ Definition check (c : case) : list Z :=
       flag 25 (c_cprobes ps o) ++
       flag 26 (c_meta String.eqb String.eqb ps o) ++
       flag 27 ret ++
-      flag 28 (o_unchanged o)
+      flag 28 (o_unchanged o) ++
+      flag 29 (c_link ps Ts o T)
   end end.
 
 Definition run (cases : list case) : list (Z * Z) :=
